@@ -26,9 +26,9 @@ def storageOp (op : String) (j : Json) : Except String Json := do
     let conv := tableFn ps convVals
     let tb ← jTimeBase (← fld j "dt")
     let acc := match tb with
-      | .series dts => if dts.length = ps.length then some (energyAcc s conv ps dts, socAcc s conv ps dts) else none
+      | .series dts => if dts.length = ps.length || ps.length = 1 then some (energyAccC s conv ps dts, socAccC s conv ps dts) else none
       | .scalar _ => none
-    return obj [("energy", optRatJ (energy s conv ps tb)), ("soc", optRatJ (soc s conv ps tb)),
+    return obj [("energy", optRatJ (energyC s conv ps tb)), ("soc", optRatJ (socC s conv ps tb)),
                 ("energy_acc", match acc with | some a => ratsJ a.1 | none => Json.null),
                 ("soc_acc", match acc with | some a => ratsJ a.2 | none => Json.null),
                 ("stored_power", ratsJ (storedPower s conv ps))]
